@@ -28,6 +28,7 @@ import ast
 
 from .. import pyfront as P
 from ..cfront import AnalysisError
+from .c42_project import rule_project_agree
 
 LEVEL = "other"
 DIR = "doc/generate/"
@@ -1467,6 +1468,7 @@ def run(res, tier):
     rule_member(res, mods)
     und = P.Undecided()
     rule_member_scan(res, mods, und)
+    rule_project_agree(res, mods, und)
     rule_module_state(res, mods, und)
     literals = rule_guar(res, mods, und)
     rule_recursion(res, mods, und)
